@@ -1,6 +1,10 @@
 /-
   Proofs/RRuleWeekno.lean — the week-number mask of `_iterinfo.rebuild` (lines 1157-1222).
-  Part 1: the marking loop `for j in range(7): mask[i] = 1; i += 1; if wdaymask[i] == wkst: break`.
+  Proved so far (not yet wired into the refinement): the marking loop
+  `for j in range(7): mask[i] = 1; i += 1; if wdaymask[i] == wkst: break` (`markWeek_spec`, `markWeek_week`) and the
+  main loop over BYWEEKNO (`weekLoop_spec`): an index is marked iff it lies in one of the listed, normalised,
+  existing weeks.  Missing for `wnomask`: the next-year week 1 branch, the last-year branch (`lnumweeks`, D-C01c),
+  and the bridge to the specification's `weekOf`.
 -/
 import DateutilVerif.Proofs.RRuleEasterYearly
 
